@@ -204,3 +204,13 @@ Example C05_concurrent_repl_example :
     steps nl_host (g_init 10 [], start_pool [nl_A; nl_B; nl_F]) (g, pool) /\ In t pool /\
     tstep nl_host g t = Some (g', t') /\ t_pc t' = PDone R_OLD_EARLY /\ t_epoch t = 15 /\ g_updating g = 20.
 Proof. exact concurrent_repl_example. Qed.
+Example C05_concurrent_repl_noforce_example :
+  (forall m, In m [nl_A; nl_B] -> flag_force (rm_flags m) = false) /\
+  exists g pool, steps nl_host (g_init 10 [], start_pool [nl_A; nl_B]) (g, pool) /\ all_done pool /\ g_epoch g = 20 /\
+                 map t_pc pool = [PDone R_OK; PDone R_OLD_LATE].
+Proof. exact noforce_example. Qed.
+Example C05_cluster_atomic_example :
+  exists y, csteps nl_host (cg_init ps_init, cstart_pool [ca_msg]) y /\
+            cg_locked (fst y) = true /\ cg_epoch (fst y) = 0 /\ cg_meta (fst y) = Some (3, [104; 58; 49]) /\
+            cg_meta_epoch (fst y) = 7.
+Proof. exact cluster_atomic_example. Qed.
